@@ -96,6 +96,32 @@ def run_case(case):
                 os.makedirs(os.path.dirname(p), exist_ok=True)
                 open(p, 'w').close()
         f = case['filter']
+        # in every third case the literal base directory of each pattern is
+        # itself a symbolic link to a real directory elsewhere (searching
+        # starts THROUGH it; only links met while descending are not followed)
+        if case.get('linkbase'):
+            def base_of(pat):
+                base = []
+                for c in pat['comps']:
+                    if c['k'] == 'c' and all(i['k'] == 'lit'
+                                             for i in c['items']):
+                        base.append(unsyms([i['c'] for i in c['items']]))
+                    else:
+                        break
+                return base
+            bases = [base_of(pat) for pat in f['include']]
+            for n_, base in enumerate(bases):
+                # (left open: a linked base that lies below the base of
+                # another pattern of the same call is reached by descending,
+                # and links met while descending are not followed)
+                if not base or any(o != base and o == base[:len(o)]
+                                   for o in bases):
+                    continue
+                bp = os.path.join(src, *base)
+                if os.path.isdir(bp) and not os.path.islink(bp):
+                    real = os.path.join(root, 'relocated%d' % n_)
+                    os.rename(bp, real)
+                    os.symlink(real, bp)
         kw = {}
         if f['type'] != 'none':
             kw['type'] = f['type']
@@ -172,6 +198,7 @@ def main(argv):
                                                               g.tail()))
     for i, c in enumerate(cases):
         c['predist'] = i % 2 == 1
+        c['linkbase'] = i % 3 == 0
     res = pmap(run_case, cases)
     traces = [{'id': i + 1, 'events': [ev]} for i, ev in enumerate(res)]
     rej, st = validate_traces('Glob_Trace', TRACE, traces, chunk=400)
